@@ -106,7 +106,7 @@ fn props() -> Vec<Prop> {
         run: c07::run_case,
     }, Prop {
         id: "C08",
-        rule: "int-grid: every integer pair in a window (exhaustive) through rx_int_range vs the Lean model's printed pattern, a sub-sample through the whole engine; int-random: bounds around powers of ten up to 10^18 with inclusive/exclusive/missing bounds; dec-random: decimal bounds with up to three fractional digits; dec-near: both bounds from a small lattice (equal integer parts, integer-valued and zero bounds, shared fraction prefixes, all inclusive/exclusive combinations); mult-random: multipleOf combined with bounds; lexi: the fraction-digit helpers lexi_x_to_9 / lexi_0_to_x / lexi_range through the hook vs the printed pattern of the Lean model (all digit strings up to length 2-3, random longer ones, all inclusive/exclusive combinations); for each schema every literal of a grid in and around the bounds (0-4 fractional digits, trailing zeros, shorter forms) is accepted iff its exact value satisfies the keywords; distinct non-trivial = distinct schemas that compiled",
+        rule: "int-grid: every integer pair in a window (exhaustive) through rx_int_range vs the Lean model's printed pattern, a sub-sample through the whole engine; int-random: bounds around powers of ten up to 10^18 with inclusive/exclusive/missing bounds; dec-random: decimal bounds with up to three fractional digits; dec-near: both bounds from a small lattice (equal integer parts, integer-valued and zero bounds, shared fraction prefixes, all inclusive/exclusive combinations); mult-random: multipleOf combined with bounds; float: rx_float_range through the hook vs the printed pattern of the Lean model for decimal bounds from a lattice (signs, equal integer parts, zero, tiny and long fractions, half-open and unbounded ranges, all inclusive/exclusive combinations); lexi: the fraction-digit helpers lexi_x_to_9 / lexi_0_to_x / lexi_range through the hook vs the printed pattern of the Lean model (all digit strings up to length 2-3, random longer ones, all inclusive/exclusive combinations); for each schema every literal of a grid in and around the bounds (0-4 fractional digits, trailing zeros, shorter forms) is accepted iff its exact value satisfies the keywords; distinct non-trivial = distinct schemas that compiled",
         quick_cases: 12,
         thorough_cases: 78,
         gen: c08::gen_case,
